@@ -25,6 +25,7 @@ var dataNodes = []struct {
 	{Name: "from-where", From: `.where(lambda: "v" / "d" > 1)`},
 	{Name: "eval-div", Tick: `|eval(lambda: "v" / "d").as('x')`},
 	{Name: "eval-substring", Tick: `|eval(lambda: strSubstring("s", "v", "d")).as('x')`},
+	{Name: "where-substring", Tick: `|where(lambda: strLength(strSubstring("s", "v", "d")) >= 0)`},
 	{Name: "eval-strindex", Tick: `|eval(lambda: strIndex("s", "s") / "d").as('x')`},
 	{Name: "eval-float-div", Tick: `|eval(lambda: float("v") / float("d")).as('x')`},
 	{Name: "eval-int-conv", Tick: `|eval(lambda: int("s") + int("v")).as('x')`},
@@ -71,9 +72,10 @@ var fieldVals = []struct {
 	{"empty-string", "", false},
 	{"x", "x", false},
 	{"true", true, false},
+	{"50", int64(50), false},
 }
 
-var sVals = []any{nil, "", "x", "héllo", int64(3)}
+var sVals = []any{nil, "", "x", "héllo", int64(3), strings.Repeat("漢", 40)} // the last one: 40 runes in 120 bytes
 
 type DataCase struct {
 	Node    int
@@ -183,7 +185,10 @@ func runData(t *testing.T, c DataCase, r *rep.R) []problem {
 		ps = append(ps, problem{"points-after-bad-one-lost:" + cls, fmt.Sprintf("%s: the sibling branch saw %d of 3 points", c, rawSeen)})
 	}
 	for _, e := range errs {
-		if strings.Contains(e, "panic") || strings.Contains(e, "Trace:") || strings.Contains(e, "goroutine ") {
+		// (a Go runtime error text means a panic was recovered somewhere; 'integer divide by zero' is also the text
+		// of the ordinary error the evaluator returns for x / 0)
+		if strings.Contains(e, "panic") || strings.Contains(e, "Trace:") || strings.Contains(e, "goroutine ") ||
+			(strings.Contains(e, "runtime error:") && !strings.Contains(e, "integer divide by zero")) {
 			ps = append(ps, problem{"node-panic:" + cls, fmt.Sprintf("%s: %s", c, e)})
 			break
 		}
@@ -199,7 +204,7 @@ func dataPart(t *testing.T, r *rep.R, mine func() bool, expired func() bool) {
 		for v := range fieldVals {
 			for d := range fieldVals {
 				for s := range sVals {
-					if !rep.Thorough() && s >= 3 && (v+d)%2 == 1 {
+					if !rep.Thorough() && (s == 3 || s == 4) && (v+d)%2 == 1 {
 						continue
 					}
 					if !mine() {
